@@ -63,6 +63,13 @@ func sniffAll(h []byte, idx int, suffix []byte, r *SniffR) uint8 {
 	}
 	t, e = imagetype.ReadAt(bytes.NewReader(full))
 	chk("ReadAt", t, e)
+	// a reader that is not at the start of its underlying object (bytes already consumed, or a Seek to an embedded
+	// image): the stream is what the reader delivers from HERE on, not what the object holds at offset 0
+	pre := []byte("\xff\xd8\xff\xe1\x00\x10JFIF") // looks like another format
+	br3 := bytes.NewReader(append(append([]byte{}, pre...), full...))
+	br3.Seek(int64(len(pre)), io.SeekStart)
+	t, e = imagetype.Scan(br3)
+	chk("Scan(reader positioned behind other bytes)", t, e)
 	// the same stream delivered in pieces (a Read may return fewer bytes than asked for) is the same stream
 	t, e = imagetype.Scan(&pieceReader{b: full, first: 1, rest: 1})
 	chk("Scan(one byte per Read)", t, e)
